@@ -30,6 +30,10 @@
    [fx] is the planned repair of F11: a connection whose set-up fails after it was opened
    (identity not sent, registration or launch refused) is closed by the set-up thread.
 
+   The table keeps the registration order; r.connection(e) returns the first registered
+   connection of e and removeConnection swaps the last one of e into the freed slot, as
+   the Go slices do.
+
    A negative WaitGroup counter (the only panic reachable in this code) is the explicit
    outcome [crashed]. *)
 From Coq Require Import List Arith Bool Lia.
@@ -121,6 +125,33 @@ Fixpoint mem (x : nat) (l : list nat) : bool :=
 
 Fixpoint remove_nat (x : nat) (l : list nat) : list nat :=
   match l with [] => [] | y :: r => if x =? y then remove_nat x r else y :: remove_nat x r end.
+
+(* removeConnection(e, c): within the list of e's connections, the slot of c takes the
+   last element and the list shrinks by one ("swap with last"); a connection that is not
+   registered leaves the table unchanged *)
+Fixpoint last_of (peer_of : nat -> option nat) (tbl : list nat) (p : nat) : option nat :=
+  match tbl with
+  | [] => None
+  | c :: r => match last_of peer_of r p with
+              | Some l => Some l
+              | None => match peer_of c with
+                        | Some q => if q =? p then Some c else None
+                        | None => None
+                        end
+              end
+  end.
+
+Definition remove_swap (peer_of : nat -> option nat) (tbl : list nat) (c : nat) : list nat :=
+  if mem c tbl then
+    match peer_of c with
+    | Some p => match last_of peer_of tbl p with
+                | Some l => if l =? c then remove_nat c tbl
+                            else map (fun x => if x =? c then l else x) (remove_nat l tbl)
+                | None => remove_nat c tbl
+                end
+    | None => remove_nat c tbl
+    end
+  else tbl.
 
 Definition close_conn (k : conn) : conn := mkConn false (popen k) (peer k) (setup k) (hd k).
 Definition set_setup (k : conn) (x : spc) : conn := mkConn (lopen k) (popen k) (peer k) x (hd k).
@@ -414,7 +445,8 @@ Definition step (fx : bool) (s : state) (a : action) : option state :=
       match nth_error (conns s) c with
       | Some k => match hd k with
                   | HExitRemove =>
-                      Some (set_table (set_conns s (upd (conns s) c (set_hd k HDead))) (remove_nat c (table s)))
+                      Some (set_table (set_conns s (upd (conns s) c (set_hd k HDead)))
+                                      (remove_swap (fun x => option_map peer (nth_error (conns s) x)) (table s) c))
                   | _ => None
                   end
       | None => None
